@@ -1,5 +1,6 @@
 import SwiftMT.Lemmas.Amount
 import SwiftMT.Spec.Iso4217
+import SwiftMT.Fields.Simple
 /-
 C06 — monetary amounts and rates are accepted only as decimals and preserved exactly.  Property theorems only.
 Values are exact decimals; the f64 the library stores in between is outside the model (assumption: decimal → f64 →
@@ -182,5 +183,104 @@ example : parseAmountWithCurrency "100,55".toList "JPY".toList = none ∧
 
 example : formatAmount ⟨213, 3⟩ 3 = "0,213".toList ∧ formatAmount ⟨15, 1⟩ 2 = "1,50".toList := by
   constructor <;> (simp [formatAmount, natDigits, padLeft]; decide)
+
+/-! ### The amount-bearing field types (models in Fields/Simple.lean, tied by the `fields` stream)
+
+What an accepted content of 32B / 33B / 71F / 71G, 32A / 32C / 32D, 34F, the balances 60F–65 and 19 looks like: the amount
+part is a plain decimal within the 15d (17d) length and within the currency's precision. -/
+open SwiftMT.Fields
+
+theorem amountPart_spec (a ccy : Text) (pos : Bool) (d : Dec) (h : amountPart a ccy pos = .ok d) :
+    PlainDecimal a ∧ sigLen a ≤ 15 ∧ sigDecimals a ≤ currencyDecimals ccy ∧ (pos = true → d.mant ≠ 0) := by
+  unfold amountPart at h
+  split at h
+  · cases h
+  · split at h
+    · rename_i d' hp
+      obtain ⟨h1, h2, h3⟩ := decimals_and_length_respected a ccy d' hp
+      split at h
+      · cases h
+      · rename_i hz
+        cases h
+        refine ⟨amount_is_plain_decimal a _ h3, h2, h1, ?_⟩
+        intro hpos
+        subst hpos
+        simpa using hz
+    · cases h
+
+/-- 32B, 33B (positive), 71F, 71G: currency then amount, nothing else. -/
+theorem ccyAmt_accepted (pos : Bool) (s : Text) (v : CcyAmt) (h : CcyAmt.parse pos s = .ok v) :
+    parseCurrencyNonCommodity (s.take 3) = .ok v.ccy ∧
+    PlainDecimal (s.drop 3) ∧ sigLen (s.drop 3) ≤ 15 ∧ sigDecimals (s.drop 3) ≤ currencyDecimals v.ccy ∧
+    (pos = true → v.amt.mant ≠ 0) := by
+  unfold CcyAmt.parse at h
+  split at h; · cases h
+  split at h; · cases h
+  split at h
+  · rename_i ccy hc
+    split at h
+    · rename_i d hd
+      cases h
+      exact ⟨hc, amountPart_spec _ _ _ _ hd⟩
+    · cases h
+    · cases h
+  · cases h
+  · cases h
+
+/-- 32A, 32C, 32D: a valid date, a currency, a positive amount within the currency's precision. -/
+theorem dateCcyAmt_accepted (s : Text) (v : DateCcyAmt) (h : DateCcyAmt.parse s = .ok v) :
+    parseDateYYMMDD (s.take 6) = some v.date ∧ parseCurrencyNonCommodity ((s.drop 6).take 3) = .ok v.ccy ∧
+    PlainDecimal (s.drop 9) ∧ sigLen (s.drop 9) ≤ 15 ∧ sigDecimals (s.drop 9) ≤ currencyDecimals v.ccy ∧ v.amt.mant ≠ 0 := by
+  unfold DateCcyAmt.parse at h
+  split at h; · cases h
+  split at h; · cases h
+  split at h
+  · cases h
+  · rename_i d hd
+    split at h
+    · rename_i ccy hc
+      split at h
+      · rename_i a ha
+        cases h
+        obtain ⟨h1, h2, h3, h4⟩ := amountPart_spec _ _ _ _ ha
+        exact ⟨hd, hc, h1, h2, h3, h4 rfl⟩
+      · cases h
+      · cases h
+    · cases h
+    · cases h
+
+/-- the balances 60F, 60M, 62F, 62M, 64, 65 -/
+theorem balance_accepted (s : Text) (v : Balance) (h : Balance.parse s = .ok v) :
+    (v.dc = ['D'] ∨ v.dc = ['C']) ∧ s.take 1 = v.dc ∧ parseDateYYMMDD ((s.drop 1).take 6) = some v.date ∧
+    parseCurrency ((s.drop 7).take 3) = .ok v.ccy ∧ sigLen (s.drop 10) ≤ 15 ∧ sigDecimals (s.drop 10) ≤ currencyDecimals v.ccy ∧
+    PlainDecimal (s.drop 10) := by
+  unfold Balance.parse at h
+  split at h; · cases h
+  split at h; · cases h
+  simp only at h
+  split at h; · cases h
+  rename_i hdc
+  split at h
+  · cases h
+  · rename_i d hd
+    split at h
+    · rename_i ccy hc
+      split at h
+      · rename_i a ha
+        cases h
+        obtain ⟨h1, h2, h3⟩ := decimals_and_length_respected _ _ _ ha
+        refine ⟨?_, rfl, hd, hc, h2, h1, amount_is_plain_decimal _ _ h3⟩
+        simp only [Bool.and_eq_true, bne_iff_ne, ne_eq, not_and, Decidable.not_not] at hdc
+        by_cases hD : s.take 1 = ['D']
+        · exact Or.inl hD
+        · exact Or.inr (hdc hD)
+      · cases h
+    · cases h
+    · cases h
+
+/-- Non-vacuity -/
+example : (CcyAmt.parse true "USD1000,5".toList).isOk = true := by decide
+example : (CcyAmt.parse true "JPY1000,5".toList).isOk = false := by decide
+example : (Balance.parse "C240315KWD1000,123".toList).isOk = true := by decide
 
 end SwiftMT.Props.C06
